@@ -15,13 +15,26 @@ structure WF (s : State) : Prop where
   wrapArr : ∀ (i : Nat) (w : Wrap), s.wraps[i]? = some w → w.arr < s.arrs.length
   fieldWrap : ∀ (i w : Nat), s.fields[i]? = some w → w < s.wraps.length
 
+/-- the ndarray objects an effect allocates, in allocation order -/
+def newArrs (e : Eff) : List Arr := e.newArr0.toList ++ e.newArr.toList
+
+@[simp] theorem length_newArrs (e : Eff) : (newArrs e).length = e.newArr0.toList.length + e.newArr.toList.length := by
+  simp [newArrs]
+
+theorem mem_newArrs {e : Eff} {a : Arr} (h : a ∈ newArrs e) : e.newArr0 = some a ∨ e.newArr = some a := by
+  unfold newArrs at h
+  rcases List.mem_append.mp h with h | h
+  · left; cases h0 : e.newArr0 <;> simp_all
+  · right; cases h1 : e.newArr <;> simp_all
+
 /-- conditions on an effect record under which the frame lemmas hold -/
 structure Legal (s : State) (e : Eff) : Prop where
   write : ∀ a vals, e.write = some (a, vals) → ∃ ao, s.arrs[a]? = some ao ∧ ao.writeable = true
   newArr : ∀ a, e.newArr = some a →
     (a.buf = s.bufs.length ∧ e.newBuf.isSome) ∨
     (∃ (p : Nat) (po : Arr), s.arrs[p]? = some po ∧ po.buf = a.buf ∧ (a.writeable = true → po.writeable = true))
-  newWrap : ∀ w, e.newWrap = some w → w.arr < s.arrs.length + e.newArr.toList.length
+  newArr0 : ∀ a, e.newArr0 = some a → a.buf = s.bufs.length ∧ e.newBuf.isSome
+  newWrap : ∀ w, e.newWrap = some w → w.arr < s.arrs.length + (newArrs e).length
   newField : ∀ w, e.newField = some w → w < s.wraps.length + e.newWrap.toList.length
 
 /-- the flag of old ndarray object `i` after the lock/unlock part of an effect -/
@@ -45,13 +58,13 @@ theorem length_arrsAfterFlags (s : State) (e : Eff) : (arrsAfterFlags s e).lengt
 theorem apply_arrs_old (s : State) (e : Eff) (i : Nat) (hi : i < s.arrs.length) :
     (apply s e).arrs[i]? = (s.arrs[i]?).map (fun o => { o with writeable := flagAfter e i o.writeable }) := by
   simp only [apply]
-  rw [List.getElem?_append_left (by rw [length_arrsAfterFlags]; exact hi)]
+  rw [List.append_assoc, List.getElem?_append_left (by rw [length_arrsAfterFlags]; exact hi)]
   exact getElem?_arrsAfterFlags s e i
 
 theorem apply_arrs_new (s : State) (e : Eff) (i : Nat) (hi : s.arrs.length ≤ i) :
-    (apply s e).arrs[i]? = e.newArr.toList[i - s.arrs.length]? := by
-  simp only [apply]
-  rw [List.getElem?_append_right (by rw [length_arrsAfterFlags]; exact hi), length_arrsAfterFlags]
+    (apply s e).arrs[i]? = (newArrs e)[i - s.arrs.length]? := by
+  simp only [apply, newArrs]
+  rw [List.append_assoc, List.getElem?_append_right (by rw [length_arrsAfterFlags]; exact hi), length_arrsAfterFlags]
 
 theorem apply_wraps_old (s : State) (e : Eff) (i : Nat) (hi : i < s.wraps.length) :
     ((apply s e).wraps[i]?).map (·.arr) = (s.wraps[i]?).map (·.arr) := by
@@ -101,7 +114,7 @@ theorem apply_bufs_prot (s : State) (e : Eff) (hl : Legal s e) (b : Nat) (hb : b
 /-- protection of buffer `b` after an effect, from the flags after the effect -/
 theorem apply_prot_of (s : State) (e : Eff) (b : Nat)
     (hold : ∀ (i : Nat) (o : Arr), s.arrs[i]? = some o → o.buf = b → flagAfter e i o.writeable = false)
-    (hnew : ∀ a, e.newArr = some a → a.buf = b → a.writeable = false) : Prot (apply s e) b := by
+    (hnew : ∀ a, a ∈ newArrs e → a.buf = b → a.writeable = false) : Prot (apply s e) b := by
   intro i o hio hb
   by_cases hi : i < s.arrs.length
   · rw [apply_arrs_old s e i hi] at hio
@@ -112,16 +125,7 @@ theorem apply_prot_of (s : State) (e : Eff) (b : Nat)
       subst hio
       exact hold i o' h hb
   · rw [apply_arrs_new s e i (Nat.le_of_not_lt hi)] at hio
-    cases hn : e.newArr with
-    | none => simp [hn] at hio
-    | some a =>
-      simp [hn] at hio
-      have : a = o := by
-        cases hk : i - s.arrs.length with
-        | zero => simpa [hk] using hio
-        | succ k => simp [hk] at hio
-      subst this
-      exact hnew a hn hb
+    exact hnew o (List.mem_of_getElem? hio) hb
 
 /-- a protected buffer stays protected unless the effect re-enables a flag on it -/
 theorem apply_prot (s : State) (e : Eff) (_hw : WF s) (hl : Legal s e) (b : Nat) (hb : b < s.bufs.length)
@@ -136,7 +140,10 @@ theorem apply_prot (s : State) (e : Eff) (_hw : WF s) (hl : Legal s e) (b : Nat)
     · split
       · rfl
       · exact hp i o hio hob
-  · intro a ha hab
+  · intro a ha' hab
+    rcases mem_newArrs ha' with ha | ha
+    · have := (hl.newArr0 a ha).1
+      omega
     rcases hl.newArr a ha with ⟨h1, _⟩ | ⟨p, po, h1, h2, h3⟩
     · omega
     · cases hwv : a.writeable with
@@ -146,8 +153,8 @@ theorem apply_prot (s : State) (e : Eff) (_hw : WF s) (hl : Legal s e) (b : Nat)
         simp [h3 hwv] at this
 
 theorem apply_wf (s : State) (e : Eff) (hw : WF s) (hl : Legal s e) : WF (apply s e) := by
-  have hlenA : (apply s e).arrs.length = s.arrs.length + e.newArr.toList.length := by
-    simp [apply, length_arrsAfterFlags]
+  have hlenA : (apply s e).arrs.length = s.arrs.length + (newArrs e).length := by
+    simp [apply, newArrs, length_arrsAfterFlags, Nat.add_assoc]
   have hlenB : (apply s e).bufs.length = s.bufs.length + e.newBuf.toList.length := by
     simp only [apply, List.length_append]
     congr 1
@@ -172,19 +179,15 @@ theorem apply_wf (s : State) (e : Eff) (hw : WF s) (hl : Legal s e) : WF (apply 
         simp only []
         omega
     · rw [apply_arrs_new s e i (Nat.le_of_not_lt hi)] at hio
-      cases hn : e.newArr with
-      | none => simp [hn] at hio
-      | some a =>
-        simp [hn] at hio
-        have : a = o := by
-          cases hk : i - s.arrs.length with
-          | zero => simpa [hk] using hio
-          | succ k => simp [hk] at hio
-        subst this
-        rcases hl.newArr a hn with ⟨h1, h2⟩ | ⟨p, po, h1, h2, _⟩
-        · cases hb : e.newBuf with
-          | none => simp [hb] at h2
-          | some v => simp; omega
+      have hfresh : ∀ a : Arr, a.buf = s.bufs.length ∧ e.newBuf.isSome → a.buf < s.bufs.length + e.newBuf.toList.length := by
+        intro a ⟨h1, h2⟩
+        cases hb : e.newBuf with
+        | none => simp [hb] at h2
+        | some v => simp; omega
+      rcases mem_newArrs (List.mem_of_getElem? hio) with hn | hn
+      · exact hfresh o (hl.newArr0 o hn)
+      · rcases hl.newArr o hn with h | ⟨p, po, h1, h2, _⟩
+        · exact hfresh o h
         · have := hw.arrBuf p po h1
           omega
   · intro i w hiw
@@ -418,6 +421,10 @@ theorem eff_legal (cfg : Cfg) (s : State) (hw : WF s) (op : Op) : Legal s (eff c
       obtain ⟨h0, h1, h2⟩ := getField_some h
       exact legal_fieldInit _ _ _ _ _ _ _ (lt_of_getElem? h2) (fun _ => lt_of_getElem? h1)
     · exact legal_bad s
+  case arrBase a =>
+    split
+    · split <;> constructor <;> simp
+    · exact legal_bad s
   case fieldVal f =>
     split
     · constructor <;> simp
@@ -590,15 +597,21 @@ theorem apply_wraps_new (s : State) (e : Eff) : (apply s e).wraps[s.wraps.length
     rw [List.getElem?_append_right (by simp)]
     simp [toList_getElem?_zero]
 
-theorem apply_arrs_new0 (s : State) (e : Eff) : (apply s e).arrs[s.arrs.length]? = e.newArr := by
-  rw [apply_arrs_new s e _ (Nat.le_refl _), Nat.sub_self, toList_getElem?_zero]
+theorem apply_arrs_new0 (s : State) (e : Eff) :
+    (apply s e).arrs[s.arrs.length + e.newArr0.toList.length]? = e.newArr := by
+  rw [apply_arrs_new s e _ (Nat.le_add_right _ _), Nat.add_sub_cancel_left]
+  unfold newArrs
+  rw [List.getElem?_append_right (Nat.le_refl _), Nat.sub_self, toList_getElem?_zero]
 
 /-- how an effect creates a field, if it does -/
 inductive Shape (s : State) (e : Eff) : Prop
   | none (h : e.newField = none)
   | fresh (a : Arr) (nw : Wrap) (h1 : e.newArr = some a) (h2 : a.buf = s.bufs.length) (h3 : a.writeable = false)
-      (h4 : e.newWrap = some nw) (h5 : nw.arr = s.arrs.length) (h6 : e.newField = some s.wraps.length)
-  | init (w a : Nat) (ao : Arr) (h1 : e.newField = some w) (h2 : e.newArr = none) (h3 : e.unlockArr = none)
+      (h0 : ∀ b, e.newArr0 = some b → b.writeable = false)
+      (h4 : e.newWrap = some nw) (h5 : nw.arr = s.arrs.length + e.newArr0.toList.length)
+      (h6 : e.newField = some s.wraps.length)
+  | init (w a : Nat) (ao : Arr) (h1 : e.newField = some w) (h2 : e.newArr = none) (h2' : e.newArr0 = none)
+      (h3 : e.unlockArr = none)
       (h4 : s.arrs[a]? = some ao)
       (h5 : (∃ nw, e.newWrap = some nw ∧ nw.arr = a ∧ w = s.wraps.length) ∨
             (∃ wo, s.wraps[w]? = some wo ∧ wo.arr = a))
@@ -611,7 +624,7 @@ theorem prot_of_shape (s : State) (hw : WF s) (e : Eff) (hs : Shape s e) (w : Na
   rw [apply_fields_new] at g0
   cases hs with
   | none h => rw [h] at g0; cases g0
-  | fresh a nw h1 h2 h3 h4 h5 h6 =>
+  | fresh a nw h1 h2 h3 h0 h4 h5 h6 =>
     rw [h6] at g0
     have hw' : w = s.wraps.length := by injection g0 with g0; exact g0.symm
     subst hw'
@@ -626,11 +639,13 @@ theorem prot_of_shape (s : State) (hw : WF s) (e : Eff) (hs : Shape s e) (w : Na
       have := hw.arrBuf i o hio
       omega
     · intro a' ha' _
-      rw [h1] at ha'
-      injection ha' with ha'
-      subst ha'
-      exact h3
-  | init w0 a ao h1 h2 h3 h4 h5 h6 =>
+      rcases mem_newArrs ha' with ha' | ha'
+      · exact h0 a' ha'
+      · rw [h1] at ha'
+        injection ha' with ha'
+        subst ha'
+        exact h3
+  | init w0 a ao h1 h2 h2' h3 h4 h5 h6 =>
     rw [h1] at g0
     have hw' : w0 = w := by injection g0
     subst hw'
@@ -661,8 +676,9 @@ theorem prot_of_shape (s : State) (hw : WF s) (e : Eff) (hs : Shape s e) (w : Na
         · subst k1; exact absurd k2 hne
         · exact k
     · intro a' ha' _
-      rw [h2] at ha'
-      cases ha'
+      rcases mem_newArrs ha' with ha' | ha'
+      · rw [h2'] at ha'; cases ha'
+      · rw [h2] at ha'; cases ha'
 
 
 theorem noOtherWritableAlias_spec {s : State} {a b : Nat} (h : noOtherWritableAlias s a b = true)
@@ -676,7 +692,7 @@ theorem noOtherWritableAlias_spec {s : State} {a b : Nat} (h : noOtherWritableAl
 theorem shape_none_of {s : State} {e : Eff} (h : e.newField = none) : Shape s e := Shape.none h
 
 theorem shape_freshField (s : State) (v : List Int) : Shape s (freshField fixed s v) :=
-  Shape.fresh _ _ rfl rfl rfl rfl rfl rfl
+  Shape.fresh _ _ rfl rfl rfl (by intro b hb; cases hb) rfl rfl rfl
 
 /-- `Field.__init__` of the repaired code on an ndarray object all of whose *other* aliases are read-only -/
 theorem shape_fieldInit (s : State) (w : Nat) (wo : Wrap) (ao : Arr) (n : Nat) (fr : Bool)
@@ -688,13 +704,13 @@ theorem shape_fieldInit (s : State) (w : Nat) (wo : Wrap) (ao : Arr) (n : Nat) (
   split
   · exact Shape.none rfl
   · split
-    · refine Shape.init s.wraps.length wo.arr ao rfl rfl rfl h4 (Or.inl ⟨_, rfl, rfl, rfl⟩) ?_
+    · refine Shape.init s.wraps.length wo.arr ao rfl rfl rfl rfl h4 (Or.inl ⟨_, rfl, rfl, rfl⟩) ?_
       intro i o hio hb
       rcases h6 i o hio hb with k | k
       · exact Or.inl ⟨k, by simp [lockEff, fixed]⟩
       · exact Or.inr k
     · rename_i hfr
-      refine Shape.init w wo.arr ao rfl rfl rfl h4 (Or.inr ⟨wo, hwo (by simpa using hfr), rfl⟩) ?_
+      refine Shape.init w wo.arr ao rfl rfl rfl rfl h4 (Or.inr ⟨wo, hwo (by simpa using hfr), rfl⟩) ?_
       intro i o hio hb
       rcases h6 i o hio hb with k | k
       · exact Or.inl ⟨k, by simp [lockEff, fixed]⟩
@@ -723,7 +739,12 @@ theorem eff_shape (s : State) (hinv : Inv s) (op : Op) (hg : guard s op = true) 
       exact shape_fieldInit s _ _ ao _ false h2 (fun _ => h1)
         (fun i o hio hb => Or.inr (hinv f w wo ao h i o hio hb))
     · exact Shape.none rfl
-  case fieldFull n v => exact Shape.fresh _ _ rfl rfl rfl rfl rfl rfl
+  case fieldFull n v =>
+    refine Shape.fresh _ _ rfl rfl rfl ?_ rfl rfl rfl
+    intro b hb
+    simp only [Option.some.injEq] at hb
+    subst hb
+    rfl
   case fieldAdd f g =>
     split
     · split
